@@ -17,7 +17,7 @@ func init() {
 			"of its node type to a visiting helper exactly once on every path, nil guards aside (R14b); f(node) is called first and its false result " +
 			"returns before any child, f(nil) is called exactly once after the children on every normal path (R14c); Preorder is one Walk whose callback " +
 			"never yields after the consumer stopped (R14d).",
-		NotDecided: "that the break after the first trailing comment in the Stmt/CaseItem/ArrayElem comment loops never skips a second trailing comment (a parser invariant on comment order); " +
+		NotDecided: "" +
 			"the dynamic order of visits relative to source order.",
 		Assumptions: []string{"nodes are only built by code in package syntax; trees contain no cycles or shared sub-nodes (parser invariant, not checked)"},
 		Controls:    c14Controls,
@@ -47,10 +47,86 @@ func parserConstructible(g *refGraph, reach map[*types.Func]bool, n *types.Named
 
 type walkHelpers struct {
 	walk, list, nilable, comments *types.Func
+	// derived: package functions that are a straight line of calls of the helpers above, each on a distinct parameter,
+	// with the callback handed through; the value lists the parameters visited (each exactly once).
+	derived map[*types.Func][]int
 }
 
 func (w walkHelpers) is(f *types.Func) bool {
 	return f != nil && (f == w.walk || f == w.list || f == w.nilable || f == w.comments)
+}
+
+// deriveWalkHelpers finds helper functions built from the four basic ones (e.g. walkStmts(stmts, last, f)).
+func deriveWalkHelpers(p *Prog, info *types.Info, wh walkHelpers) map[*types.Func][]int {
+	out := map[*types.Func][]int{}
+	for _, fd := range p.AllFuncDecls("syntax") {
+		if fd.Recv != nil || fd.Body == nil || fd.Type.Params == nil {
+			continue
+		}
+		fo, _ := info.Defs[fd.Name].(*types.Func)
+		if fo == nil || wh.is(fo) {
+			continue
+		}
+		var params []types.Object
+		for _, f := range fd.Type.Params.List {
+			for _, nm := range f.Names {
+				params = append(params, info.Defs[nm])
+			}
+		}
+		if len(params) < 2 {
+			continue
+		}
+		cb := params[len(params)-1]
+		if _, ok := cb.Type().Underlying().(*types.Signature); !ok {
+			continue
+		}
+		counts := make([]int, len(params)-1)
+		ok := len(fd.Body.List) > 0
+		for _, st := range fd.Body.List {
+			es, isExpr := st.(*ast.ExprStmt)
+			if !isExpr {
+				ok = false
+				break
+			}
+			call, isCall := es.X.(*ast.CallExpr)
+			if !isCall || !wh.is(calleeOf(info, call)) || len(call.Args) != 2 {
+				ok = false
+				break
+			}
+			a0, _ := ast.Unparen(call.Args[0]).(*ast.Ident)
+			a1, _ := ast.Unparen(call.Args[1]).(*ast.Ident)
+			if a0 == nil || a1 == nil || info.Uses[a1] != cb {
+				ok = false
+				break
+			}
+			hit := false
+			for i, po := range params[:len(params)-1] {
+				if info.Uses[a0] == po {
+					counts[i]++
+					hit = true
+				}
+			}
+			if !hit {
+				ok = false
+				break
+			}
+		}
+		if !ok {
+			continue
+		}
+		var visited []int
+		for i, c := range counts {
+			if c == 1 {
+				visited = append(visited, i)
+			} else if c > 1 {
+				ok = false
+			}
+		}
+		if ok && len(visited) > 0 {
+			out[fo] = visited
+		}
+	}
+	return out
 }
 
 func runC14(p *Prog, r *Result) {
@@ -81,6 +157,10 @@ func runC14(p *Prog, r *Result) {
 	if wh.walk == nil {
 		r.Fatalf("anchor syntax.Walk object not found")
 		return
+	}
+	wh.derived = deriveWalkHelpers(p, info, wh)
+	for fo, vis := range wh.derived {
+		r.Notef("R14h: derived helper %s visits its parameters %v once each", fo.Name(), vis)
 	}
 	// Locate the type switch on the node parameter.
 	params := walkFD.Type.Params.List
@@ -308,6 +388,9 @@ func clonePath(p visitPath) visitPath {
 
 // visitArg interprets the first argument of a visiting call. rangeVar/
 // rangePath describe an enclosing `for _, c := range node.F` loop.
+// currentRangeKey is the key variable of the range statement whose body is being analysed (ranges do not nest here).
+var currentRangeKey types.Object
+
 func visitArg(info *types.Info, arg ast.Expr, node types.Object, rangeVar types.Object, rangePath string) string {
 	arg = ast.Unparen(arg)
 	if u, ok := arg.(*ast.UnaryExpr); ok && u.Op == token.AND {
@@ -315,6 +398,12 @@ func visitArg(info *types.Info, arg ast.Expr, node types.Object, rangeVar types.
 	}
 	if id, ok := arg.(*ast.Ident); ok && rangeVar != nil && info.Uses[id] == rangeVar {
 		return rangePath
+	}
+	// node.F[i:] with i the key of the enclosing range over node.F: the rest of the list from this element on
+	if se, ok := arg.(*ast.SliceExpr); ok && rangeVar != nil && currentRangeKey != nil && se.High == nil && se.Max == nil && se.Low != nil {
+		if id, ok := ast.Unparen(se.Low).(*ast.Ident); ok && info.Uses[id] == currentRangeKey && fieldPathOf(info, se.X, node) == rangePath {
+			return rangePath + "[rest]"
+		}
 	}
 	return fieldPathOf(info, arg, node)
 }
@@ -351,6 +440,21 @@ func (vp *visitPaths) stmts(info *types.Info, list []ast.Stmt, in []visitPath, n
 
 func (vp *visitPaths) call(info *types.Info, call *ast.CallExpr, in []visitPath, node types.Object, wh walkHelpers, rangeVar types.Object, rangePath string) ([]visitPath, bool) {
 	callee := calleeOf(info, call)
+	if vis, ok := wh.derived[callee]; ok && callee != nil {
+		for _, ai := range vis {
+			if ai >= len(call.Args) {
+				return in, false
+			}
+			path := visitArg(info, call.Args[ai], node, rangeVar, rangePath)
+			if path == "" {
+				path = "<" + exprString(call.Args[ai]) + ">"
+			}
+			for i := range in {
+				in[i].visits[path]++
+			}
+		}
+		return in, true
+	}
 	if !wh.is(callee) {
 		return in, false
 	}
@@ -436,6 +540,44 @@ func (vp *visitPaths) stmt(info *types.Info, s ast.Stmt, in []visitPath, node ty
 			out = append(out, elseIn...)
 		}
 		return out
+	case *ast.SwitchStmt:
+		// switch { case c1: … case c2: … default: … } is an if / else-if chain
+		if s.Tag != nil || s.Init != nil {
+			vp.fail(s.Pos(), "switch with a tag or init statement in a Walk case")
+			return in
+		}
+		var chain ast.Stmt
+		var def *ast.CaseClause
+		var clauses []*ast.CaseClause
+		for _, c := range s.Body.List {
+			cc := c.(*ast.CaseClause)
+			if cc.List == nil {
+				def = cc
+			} else {
+				clauses = append(clauses, cc)
+			}
+		}
+		if def != nil {
+			chain = &ast.BlockStmt{Lbrace: def.Pos(), List: def.Body, Rbrace: def.End()}
+		}
+		for i := len(clauses) - 1; i >= 0; i-- {
+			cc := clauses[i]
+			if len(cc.List) != 1 {
+				vp.fail(cc.Pos(), "case with several conditions in a Walk case")
+				return in
+			}
+			for _, b := range cc.Body {
+				if br, ok := b.(*ast.BranchStmt); ok && br.Tok == token.FALLTHROUGH {
+					vp.fail(br.Pos(), "fallthrough in a Walk case")
+					return in
+				}
+			}
+			chain = &ast.IfStmt{If: cc.Pos(), Cond: cc.List[0], Body: &ast.BlockStmt{Lbrace: cc.Pos(), List: cc.Body, Rbrace: cc.End()}, Else: chain}
+		}
+		if chain == nil {
+			return in
+		}
+		return vp.stmt(info, chain, in, node, wh, fParam, rangeVar, rangePath)
 	case *ast.RangeStmt:
 		// for _, c := range node.F { ... visit(&c) ... }
 		path := fieldPathOf(info, s.X, node)
@@ -449,18 +591,29 @@ func (vp *visitPaths) stmt(info *types.Info, s ast.Stmt, in []visitPath, node ty
 		}
 		// Analyse one iteration from an empty path: every way through the
 		// body must visit the element exactly once.
+		currentRangeKey = nil
+		if id, ok := s.Key.(*ast.Ident); ok && s.Key != nil && id.Name != "_" {
+			currentRangeKey = info.Defs[id]
+		}
 		iter := vp.stmts(info, s.Body.List, []visitPath{{visits: map[string]int{}, nilOf: map[string]bool{}}}, node, wh, fParam, rv, path)
+		currentRangeKey = nil
 		ok := true
 		for _, ip := range iter {
+			// an iteration that goes on to the next element visits this one exactly once; one that leaves the loop
+			// visits the rest of the list from this element on (node.F[i:]) exactly once, and nothing else
+			want := path
+			if ip.ended == "break" {
+				want = path + "[rest]"
+			}
 			if ip.ended == "return" {
 				ok = false
 			}
 			for k, c := range ip.visits {
-				if k != path || c != 1 {
+				if k != want || c != 1 {
 					ok = false
 				}
 			}
-			if ip.visits[path] != 1 {
+			if ip.visits[want] != 1 {
 				ok = false
 			}
 		}
@@ -1072,6 +1225,8 @@ func nilTestIdent(info *types.Info, cond ast.Expr, obj types.Object) (match bool
 }
 
 var c14Controls = []Control{
+	{Name: "case-item-only-first-trailing-comment", Rule: "R14b", WantKey: "case *CaseItem/field Comments", File: "syntax/walk.go",
+		Mutate: ctlReplaceAnywhere("defer walkComments(node.Comments[i:], f)\n\t\t\t\tbreak\n\t\t\t}\n\t\t\tWalk(&c, f)\n\t\t}\n\t\twalkList(node.Patterns, f)", "defer walkComments(node.Comments[i:i+1], f)\n\t\t\t\tbreak\n\t\t\t}\n\t\t\tWalk(&c, f)\n\t\t}\n\t\twalkList(node.Patterns, f)")},
 	{Name: "preorder-stop-flag-shared", Rule: "R14d", WantKey: "iterator keeps no state", File: "syntax/walk.go",
 		Mutate: ctlReplaceAnywhere("\treturn func(yield func(Node) bool) {\n\t\tok := true\n", "\tok := true\n\treturn func(yield func(Node) bool) {\n")},
 	{Name: "drop-visit-Stmt.Redirs", Rule: "R14b", WantKey: "*Stmt/field Redirs", File: "syntax/walk.go",
